@@ -357,6 +357,10 @@ class SafeLearner(Learner):
             kwargs = pred[-1] if self._pred_kwargs else {}
             pred   = pred[:-1] if self._pred_kwargs else pred
 
+            if self._pred_kwargs and self._pred_format in ['AX','AX*','AP*','PM*']:
+                #these formats have a single part so [part,kwargs] leaves [part]
+                pred = pred[0]
+
             if self._pred_format.endswith('*'):
                 pred = list(pred.values())[0]
 
